@@ -372,6 +372,10 @@ func (g *G) govMsg(v *view) script.Msg {
 		for _, i := range g.rng.Perm(minInt(g.n, 6))[:n] {
 			signers = append(signers, g.acct(i))
 		}
+		if g.chance(6) && len(signers) > 1 { // the same address listed twice (accepted by Validate: it does not de-duplicate)
+			signers = append(signers, signers[0])
+			n = len(signers)
+		}
 		min, limit := u(uint64(1+g.rng.Intn(n))), g.pick("30", "30", "5", "1", "100000", "10000000000", "9223372036854775808", "18446744073709551615")
 		if g.w.quorum {
 			limit = g.pick("100000", "100000", "30")
